@@ -109,6 +109,20 @@ CHECKS = {
         "Value difference is Python inequality (1 == 1.0 == True).",
         "DESIGN.md 3/C25",
     ),
+    "C10": (
+        "model_checking",
+        "explicit-state BFS over the real pipeline builder x exhaustive small inputs x exhaustive perturbation menu of every unreported column; metamorphic oracle (result unchanged) on Pandas and SQLite, plus narrowed-replay equality",
+        "Every pipeline reachable in <= 2 builder calls over the core menu (thorough: + <= 3 over the SQL-translation slice) whose columns_used() leaves some input column unreported is run on all multisets of <= 2 rows and re-run with the unreported columns replaced by all-null, by each constant of the column's domain, reversed and alternating values (thorough: one column at a time as well); the Pandas and the SQLite result must not change; the same history rebuilt over table descriptions narrowed to the reported columns must give the same result on the restricted inputs.",
+        "Metamorphic: no reference model. A narrowed rebuild that the builder rejects because a step names an unreported column is counted, not judged.",
+        "DESIGN.md 3/C10",
+    ),
+    "C19": (
+        "model_checking",
+        "explicit-state BFS over the real pipeline builder x exhaustive small inputs x index variants x entry points x frame kinds; deep before/after snapshot invariant and run-twice equality",
+        "Every core-menu state at depth <= 1 and every state at depth <= 2 (quick: over a one-entry-per-operator slice; thorough: the core menu) is evaluated through eval, transform, ex (captured tables), frame >> ops and act_on on all multisets of <= 2 rows as Pandas frames (default, reversed, duplicate-label and string index with a named index; with an extra unused column), Polars eager and Polars lazy frames; a bit-exact snapshot of every caller frame (values, dtypes, columns, index values and name, object identity) must be unchanged afterwards and a second evaluation must return the identical table.",
+        "Snapshots compare cells by repr; attrs/flags ignored. Multi-table pipelines only through eval.",
+        "DESIGN.md 3/C19",
+    ),
     "C24": (
         "model_checking",
         "explicit-state search: complete reachable state graph of the real OrderedSet, lock-step dict/set reference model",
